@@ -434,14 +434,22 @@ destination permits). -/
 def transitOk (nd : Node) (i : Nat) (pl : Pl) (dst : Ip) : Bool :=
   match nd.fw with
   | none => nd.on && !aclDenies nd i pl
-  | some acl => !aclDenies nd i pl && i != 2 && fwPermits acl (secondList nd i dst) pl
+  | some acl =>
+    !aclDenies nd i pl &&
+      (if i == 2 then
+        -- arrival on the DMZ port (`_process_dmz_outbound_frame`), warm: the destination's cache entry names the outbound port,
+        -- the list of that port (external outbound / internal inbound) permits
+        match nd.arpGet dst with
+        | some e => (match dmzSecondList e.ifc with | some l => fwPermits acl l pl | none => false)
+        | none => false
+      else fwPermits acl (secondList nd i dst) pl)
 
 /-- a router / firewall passes a frame up to its own software only for one of its own addresses
 (`check_send_frame_to_session_manager`); everything else that the verdicts permit goes to `process_frame`, after the
 source pair was learned. -/
 theorem C08_router_transit (fuel : Nat) (st : St) (n i : Nat) (f : Frame) (nd : Node) (ifc : Iface)
     (hn : st.node? n = some nd) (hi : st.iface? n i = some ifc) (hok : transitOk nd i f.pl f.dstIp = true)
-    (hnot : ifaceWithIp nd.ifaces f.dstIp = none) :
+    (hnot : ifaceWithIp nd.ifaces f.dstIp = none) (hdmz : nd.fw.isSome → i = 2 → f.dstMac ≠ bcastMac ∧ 1 ≤ fuel) :
     routerRecv (fuel + 1) st n i f =
       routerProcess fuel (st.modNode n (fun nd => nd.addArp f.srcIp f.srcMac i)) n i f := by
   unfold transitOk at hok
@@ -451,19 +459,52 @@ theorem C08_router_transit (fuel : Nat) (st : St) (n i : Nat) (f : Frame) (nd : 
     simp only [routerRecv, hn, hi, hfw, hok.1, hok.2, Option.isNone_none, Bool.not_true, Bool.and_false, Bool.false_eq_true,
       if_false, hnot]
   | some acl =>
-    simp only [hfw, Bool.and_eq_true, Bool.not_eq_true', bne_iff_ne, ne_eq] at hok
-    have h2 : (i == 2) = false := by simpa using hok.1.2
-    simp only [routerRecv, hn, hi, hfw, hok.1.1, hok.2, h2, Option.isNone_some, Bool.false_and, Bool.false_eq_true, if_false,
-      hnot, if_true]
+    simp only [hfw, Bool.and_eq_true, Bool.not_eq_true'] at hok
+    by_cases h2 : (i == 2) = true
+    · -- the DMZ port: the cache hit answers the first look-up without touching the state
+      obtain ⟨hb, hf1⟩ := hdmz (by rw [hfw]; rfl) (by simpa using h2)
+      obtain ⟨k, rfl⟩ : ∃ k, fuel = k + 1 := ⟨fuel - 1, by omega⟩
+      simp only [h2, if_true] at hok
+      have hbm : (f.dstMac == bcastMac) = false := by simpa using hb
+      -- the destination is cached in the node as it is AFTER the source pair was learned, too
+      cases hget : nd.arpGet f.dstIp with
+      | none => rw [hget] at hok; simp at hok
+      | some e =>
+        rw [hget] at hok
+        simp only at hok
+        cases hl : dmzSecondList e.ifc with
+        | none => rw [hl] at hok; simp at hok
+        | some l =>
+          rw [hl] at hok
+          have hperm : fwPermits acl l f.pl = true := by simpa using hok.2
+          have hnode : (st.modNode n (fun nd => nd.addArp f.srcIp f.srcMac i)).node? n = some (nd.addArp f.srcIp f.srcMac i) := by
+            unfold St.modNode St.node?
+            unfold St.node? at hn
+            simp [List.getElem?_modify, hn]
+          have hget' : (nd.addArp f.srcIp f.srcMac i).arpGet f.dstIp = some e := by
+            unfold Node.addArp
+            split
+            · exact hget
+            · split
+              · exact hget
+              · unfold Node.arpGet at hget ⊢
+                simp [List.find?_append, hget]
+          simp only [routerRecv, hn, hi, hfw, hok.1, h2, hbm, Option.isNone_some, Bool.false_and, Bool.false_eq_true, if_false,
+            hnot, if_true, arpIfc, hnode, hget', hl, Option.bind_some, hperm]
+    · have h2' : (i == 2) = false := by simpa using h2
+      simp only [h2', Bool.false_eq_true, if_false] at hok
+      simp only [routerRecv, hn, hi, hfw, hok.1, hok.2, h2', Option.isNone_some, Bool.false_and, Bool.false_eq_true, if_false,
+        hnot, if_true]
 
 /-- the plain-router reading: powered on, the default ACL (ARP exempt, ICMP permitted, the service only with a rule). -/
 theorem C08_router_software_only_own_address (fuel : Nat) (st : St) (n i : Nat) (f : Frame) (nd : Node) (ifc : Iface)
     (hn : st.node? n = some nd) (hi : st.iface? n i = some ifc) (hfw : nd.fw = none) (hon : nd.on = true)
-    (hacl : ((f.pl == .dataReq || f.pl == .dataRep) && !nd.flag) = false)
+    (hacl : ((f.pl == .dataReq || f.pl == .dataRep) && !nd.flag) = false) (happ : appDenied nd.serves f.pl = false)
     (hnot : ifaceWithIp nd.ifaces f.dstIp = none) :
     routerRecv (fuel + 1) st n i f =
       routerProcess fuel (st.modNode n (fun nd => nd.addArp f.srcIp f.srcMac i)) n i f :=
-  C08_router_transit fuel st n i f nd ifc hn hi (by simp [transitOk, aclDenies, hfw, hon, hacl]) hnot
+  C08_router_transit fuel st n i f nd ifc hn hi (by simp [transitOk, aclDenies, hfw, hon, hacl, happ]) hnot
+    (by intro h; rw [hfw] at h; cases h)
 
 /-- a router or firewall whose first verdict denies the frame's class drops it before anything else happens (no ARP
 learning, no hand-over to software, no forwarding): "exchanges that every device on the path permits" is a real
